@@ -9,6 +9,7 @@ import (
 	btapb "cloud.google.com/go/bigtable/admin/apiv2/adminpb"
 	"github.com/syndtr/goleveldb/leveldb"
 	"github.com/syndtr/goleveldb/leveldb/comparer"
+	ldberrors "github.com/syndtr/goleveldb/leveldb/errors"
 	"github.com/syndtr/goleveldb/leveldb/opt"
 	"google.golang.org/protobuf/proto"
 )
@@ -145,12 +146,19 @@ func newDiskDb(path string, nuke bool) *leveldb.DB {
 		verifPoint("disk.nuke.afterRemove", []byte(path))
 	}
 
-	db, err := leveldb.OpenFile(path, &opt.Options{
+	o := &opt.Options{
 		Comparer:                     comparer.DefaultComparer,
 		Compression:                  opt.NoCompression,
 		DisableBufferPool:            true,
 		DisableLargeBatchTransaction: true,
-	})
+	}
+	db, err := leveldb.OpenFile(path, o)
+	if ldberrors.IsCorrupted(err) {
+		// A process that died while leveldb was creating the database (or switching manifests) leaves an empty
+		// or dangling CURRENT / MANIFEST file behind, which OpenFile refuses. Rebuild the manifest from the
+		// table files and replay the journals instead of refusing to start.
+		db, err = leveldb.RecoverFile(path, o)
+	}
 	if err != nil {
 		panic(err)
 	}
